@@ -222,6 +222,8 @@ type faultHist struct {
 	dead     bool // an unexpected error ended the history
 	stratum  string
 	fired0   int // faults injected before this history began (one plan serves all histories of a child)
+	// emptyTail: the last append before the close/reopen of finish() is a zero-length message
+	emptyTail bool
 }
 
 // faults is the number of faults injected during this history.
@@ -314,6 +316,11 @@ func (h *faultHist) finish(r *rand.Rand, failingReopen bool) {
 	}
 	st := h.st
 	h.plan.disarm()
+	if h.emptyTail {
+		if ok, _ := h.put(0); !ok {
+			return
+		}
+	}
 	h.all = st.verifyAll(h.q, "after the repeated Put and further appends", true, h.all)
 	st.checkOrder(h.q, "after the repeated Put and further appends", h.startSeq)
 	h.q.Close()
@@ -333,10 +340,14 @@ func (h *faultHist) finish(r *rand.Rand, failingReopen bool) {
 	if !h.open("reopen") {
 		return
 	}
+	behind := st.noteOpen(h.q, "after-a-failed-put-or-open")
 	h.all = st.verifyAll(h.q, "after reopen", true, h.all)
 	for i := 0; i < 3; i++ {
 		if ok, _ := h.put(20 + r.Intn(200)); !ok {
 			return
+		}
+		if i == 0 && behind {
+			st.count("empty.appends_right_after_an_open_behind_an_empty_message", 1)
 		}
 	}
 	h.all = st.verifyAll(h.q, "after appends on the reopened queue", true, h.all)
@@ -407,7 +418,13 @@ func faultDenseIndexRoll(res *caseResult, plan *faultPlan, r *rand.Rand, idx, va
 		h.startSeq = startPage*indexItemsPerPage - 1
 		h.q.SetAppendedSeq(h.startSeq)
 	}
-	size := func() int { return 4 + r.Intn(20) }
+	h.emptyTail = variant%2 == 0
+	size := func() int { // one message in twenty is empty
+		if v := r.Intn(20); v != 7 {
+			return 4 + v
+		}
+		return 0
+	}
 	for i := 0; i < indexItemsPerPage; i++ {
 		if reopenBefore > 0 && i == indexItemsPerPage-reopenBefore {
 			h.q.Close()
@@ -457,6 +474,7 @@ func faultDataRoll(res *caseResult, plan *faultPlan, r *rand.Rand, idx, variant 
 		h.st.tag = "after-failed-data-page-sync-at-roll-over"
 	}
 	res.Config = fmt.Sprintf("data page filled up to %d bytes before its end, %d roll-over(s), fault at the last one: %d time(s) (%s) sync-fault=%v", slack, rollovers, times, residueNames[residue], syncFault)
+	h.emptyTail = variant%2 == 0
 	if !h.open("open") {
 		return
 	}
@@ -598,8 +616,14 @@ func faultSparseIndexRoll(res *caseResult, plan *faultPlan, r *rand.Rand, idx, v
 		default:
 			plan.arm(matchAcquireNew("index"), 0, times, residue)
 		}
+		h.emptyTail = round%3 == 0
 		for i := 0; i < after && !h.dead; i++ {
-			h.appendOne(120 + r.Intn(400))
+			sz := 120 + r.Intn(400)
+			if i == 0 && round%6 == 2 {
+				sz = 0 // the Put that needs the next index page is an empty message
+				h.st.count("putfault.empty_puts_at_an_index_page_roll_over", 1)
+			}
+			h.appendOne(sz)
 		}
 		h.noteFault(fmt.Sprintf("putfault%d/sparse-index-roll/round%d", idx, round))
 		res.Evals++
@@ -652,6 +676,7 @@ func faultOpen(res *caseResult, plan *faultPlan, r *rand.Rand, idx, variant int,
 				break
 			}
 		}
+		h.emptyTail = k%2 == 1
 		res.Evals++
 		h.finish(r, false)
 		_ = os.RemoveAll(h.qdir)
@@ -699,9 +724,16 @@ func faultOpen(res *caseResult, plan *faultPlan, r *rand.Rand, idx, variant int,
 		if !h.open("NewQueue repeated after the failed one") {
 			return
 		}
+		if h.st.noteOpen(h.q, "after-a-failed-put-or-open") {
+			h.st.count("empty.appends_right_after_an_open_behind_an_empty_message", 1)
+		}
 		h.all = h.st.verifyAll(h.q, "after the repeated NewQueue", true, h.all)
 		for i := 0; i < 2; i++ {
-			if ok, _ := h.put(8 + r.Intn(900)); !ok {
+			sz := 8 + r.Intn(900)
+			if i == 1 && k%2 == 0 {
+				sz = 0 // the next failing NewQueue (and the repeated one) find an empty message at the tail
+			}
+			if ok, _ := h.put(sz); !ok {
 				return
 			}
 		}
